@@ -216,8 +216,10 @@ func check(id, tier string) int {
 		cfgs = append(cfgs, h)
 		fmt.Printf("[%s %s] harness %-28s paths=%d %v asserts=%d queries=%d (sat %d, unsat %d, unknown %d) solver=%.1fs wall=%.1fs\n",
 			id, tier, h.Name, res.Paths, res.ByStatus, res.Asserts, res.Queries, res.SatN, res.UnsatN, res.UnknownN, res.SolverTime.Seconds(), res.Wall.Seconds())
-		for _, n := range res.Notes {
-			fmt.Printf("    note: %s\n", n)
+		if os.Getenv("VERIF_VERBOSE") != "" {
+			for _, n := range res.Notes {
+				fmt.Printf("    note: %s\n", n)
+			}
 		}
 		for _, e := range res.EngineErrors {
 			problems = append(problems, h.Name+": "+e)
